@@ -150,6 +150,33 @@ var scenarios = map[string]*scenario{
 			return err
 		},
 		target: func(d string) string { return filepath.Join(d, wltA) }},
+	"create-enc": {method: "loadWallet",
+		setup: func(d string, r *Rng) {
+			s := openSvc(d)
+			_, err := s.CreateWallet(wltB, wallet.Options{Type: wallet.WalletTypeDeterministic, Seed: seedStr(r), Label: "other", GenerateN: 1})
+			must(err)
+		},
+		act: func(d string, r *Rng) error {
+			_, err := openSvc(d).CreateWallet(wltA, wallet.Options{Type: wallet.WalletTypeDeterministic, Seed: seedStr(r), Label: "fresh",
+				GenerateN: 2, Encrypt: true, Password: []byte("pw"), CryptoType: crypto.CryptoTypeSha256Xor})
+			return err
+		},
+		target: func(d string) string { return filepath.Join(d, wltA) }},
+	"create-bip44": {method: "loadWallet",
+		setup: func(d string, r *Rng) {}, // the very first wallet in an empty wallet directory
+		act: func(d string, r *Rng) error {
+			_, err := openSvc(d).CreateWallet(wltA, wallet.Options{Type: wallet.WalletTypeBip44, Label: "b44", GenerateN: 2,
+				Seed: "abandon abandon abandon abandon abandon abandon abandon abandon abandon abandon abandon about"})
+			return err
+		},
+		target: func(d string) string { return filepath.Join(d, wltA) }},
+	"create-collection": {method: "loadWallet",
+		setup: func(d string, r *Rng) { setupWallets(d, r, wallet.WalletTypeDeterministic, 1); must(os.Rename(filepath.Join(d, wltA), filepath.Join(d, "z.wlt"))) },
+		act: func(d string, r *Rng) error {
+			_, err := openSvc(d).CreateWallet(wltA, wallet.Options{Type: wallet.WalletTypeCollection, Label: "coll"})
+			return err
+		},
+		target: func(d string) string { return filepath.Join(d, wltA) }},
 	"kv-add": {method: "kv.add", kv: true, setup: setupKV,
 		act: func(d string, r *Rng) error {
 			m, err := kvstorage.NewManager(kvcfg(d))
@@ -618,8 +645,8 @@ func c20Exec(op string) string {
 }
 
 func c20Gen(r *Rng, tier string, emit func(string)) {
-	names := []string{"label", "newaddr", "newaddr-bip44", "scan", "encrypt", "create", "kv-add", "kv-remove",
-		"label+tmp", "kv-add+tmp", "newaddr+tmp"}
+	names := []string{"label", "newaddr", "newaddr-bip44", "scan", "encrypt", "create", "create-enc", "create-bip44",
+		"create-collection", "kv-add", "kv-remove", "label+tmp", "kv-add+tmp", "newaddr+tmp", "create+tmp"}
 	rounds := 1
 	if tier == "thorough" {
 		rounds = 3
